@@ -88,6 +88,7 @@ def build_jobs(spec, tier, known, solver):
                 "samples": h.get("samples", 2),
                 "makeslice_max": h.get("makeslice_max", 0),
                 "inject_failures": h.get("inject_failures", False),
+                "natural_models": h.get("natural_models", False),
                 "max_seconds": h.get("max_seconds_" + tier, h.get("max_seconds", 600 if tier == "quick" else 7200)),
                 "known": [k for k in known if k.get("harness") in (None, h["func"])],
                 "_pkg": h.get("pkg", spec["pkg"]),
